@@ -1,6 +1,164 @@
 import PdeVerif.Json
+import PdeVerif.Model.Coords
+/-
+Driver of the C19 model: every handler evaluates the definitions of `PdeVerif.Coords` (the ones
+the theorems of `Props/C19.lean` are about) at `Rat`.  Angles travel as exact rational pairs
+`(c, s)` (either the doubles numpy computed, or exact Pythagorean pairs).
+-/
 namespace PdeVerif.Drv.C19
-open Lean PdeVerif
+open Lean PdeVerif PdeVerif.Grids PdeVerif.Coords
 
-def handlers : List (String × Handler) := []
+def parseCls (s : String) : Except String GridClass :=
+  match s with
+  | "unit" => pure .unit
+  | "cartesian" => pure .cartesian
+  | "polar" => pure .polar
+  | "spherical" => pure .spherical
+  | "cylindrical" => pure .cylindrical
+  | _ => throw s!"unknown grid class {s}"
+
+def allAx : List Ax := [.r, .θ, .φ, .z, .x, .y, .σ, .τ]
+
+def parseAx (s : String) : Except String Ax :=
+  match allAx.find? (fun a => a.name == s) with
+  | some a => pure a
+  | none => throw s!"unknown axis {s}"
+
+def jAxs (l : List Ax) : Json := toJson (l.map Ax.name)
+def jMat (m : Mat Rat) : Json := Json.arr (m.map jQs).toArray
+def getMat (j : Json) : Except String (Mat Rat) := getL (getL getQ) j
+def jOptN : Option Nat → Json
+  | none => Json.null
+  | some i => toJson i
+def jOptAx : Option Ax → Json
+  | none => Json.null
+  | some a => Json.str a.name
+
+/-- matrices of one coordinate system at one point.
+polar/cylindrical: p = [r, c, s]; spherical: p = [r, ct, st, cp, sp];
+bipolar: p = [a, c, s, ch, sh]; bispherical: p = [a, c, s, ch, sh, cp, sp] -/
+def csAt (sys : String) (p : List Rat) : Except String Json := do
+  let (jac, scale, bas) ← (match sys, p with
+    | "polar", [r, c, s] => pure (polarJac r c s, polarScale r, polarBasis c s)
+    | "cylindrical", [r, c, s] => pure (cylJac r c s, cylScale r, cylBasis c s)
+    | "spherical", [r, ct, st, cp, sp] => pure (sphJac r ct st cp sp, sphScale r st, sphBasis ct st cp sp)
+    | "bipolar", [a, c, s, ch, sh] =>
+      if c - ch = 0 then throw "focus" else
+      pure (bipolarJac a c s ch sh, bipolarScale a c ch, bipolarBasis c s ch sh)
+    | "bispherical", [a, c, s, ch, sh, cp, sp] =>
+      if c - ch = 0 then throw "focus" else
+      pure (bisphJac a c s ch sh cp sp, bisphScale a c s ch, bisphBasis c s ch sh cp sp)
+    | _, _ => throw s!"bad coordinate system / parameters {sys} {p.length}" :
+      Except String (Mat Rat × Vec Rat × Mat Rat))
+  pure <| Json.mkObj [
+    ("jac", jMat jac), ("scale", jQs scale), ("basis", jMat bas), ("metric", jMat (metric scale)),
+    ("gram", jMat (matMul bas (transpose bas))), ("det_basis", jQ (det bas)), ("det_jac", jQ (det jac)),
+    ("jtj", jMat (matMul (transpose jac) jac)),
+    ("jt", jMat (transpose jac)), ("hb", jMat (scaleRows scale bas))]
+
+/-- {"sys", "pts": [[..]..]} -> list of matrix records -/
+def cs (j : Json) : Except String Json := do
+  let sys ← fldS j "sys"
+  let pts ← getMat (← fld j "pts")
+  let out ← pts.mapM (csAt sys)
+  pure (Json.arr out.toArray)
+
+/-- {"cls","n"} -> the orders, `get_axis_index` and the `__getitem__` label for every axis name -/
+def order (j : Json) : Except String Json := do
+  let cl ← parseCls (← fldS j "cls")
+  let n ← fldN j "n"
+  pure <| Json.mkObj [
+    ("cs_axes", jAxs (csAxes cl n)), ("axes", jAxs (gridAxes cl n)), ("axes_sym", jAxs (gridAxesSym cl n)),
+    ("order", jAxs (componentOrder cl n)),
+    ("sym_idx", toJson (symIdx cl)), ("described_idx", toJson (describedIdx cl n)),
+    ("index", Json.mkObj (allAx.map fun a => (a.name, jOptN (getAxisIndex cl n a)))),
+    ("index_nosym", Json.mkObj (allAx.map fun a => (a.name, jOptN (getAxisIndex cl n a false)))),
+    ("label", Json.mkObj (allAx.map fun a => (a.name, jOptAx (getitemLabel cl n a))))]
+
+def getAngles (l : List Rat) : Except String (Angles Rat) :=
+  match l with
+  | [ct, st, cp, sp] => pure ⟨ct, st, cp, sp⟩
+  | _ => throw "angles: expected [cθ, sθ, cφ, sφ]"
+
+/-- {"cls","n","pts":[[cθ,sθ,cφ,sφ]..],"comps":[[..]..]} -> conversion of each component list at
+each point as the code does it ("code") and by axis name ("op") -/
+def tocart (j : Json) : Except String Json := do
+  let cl ← parseCls (← fldS j "cls")
+  let n ← fldN j "n"
+  let pts ← getMat (← fld j "pts")
+  let comps ← getMat (← fld j "comps")
+  if pts.length ≠ comps.length then throw "pts/comps differ in length"
+  let rows ← (pts.zip comps).mapM fun (p, c) => do
+    let a ← getAngles p
+    pure (vectorToCartesian cl n a c, vectorToCartesianOp cl n a c)
+  pure <| Json.mkObj [("code", jMat (rows.map (·.1))), ("op", jMat (rows.map (·.2)))]
+
+/-- the same for rank-2 tensors: "tensors": [[[..]..]..] -/
+def tocart2 (j : Json) : Except String Json := do
+  let cl ← parseCls (← fldS j "cls")
+  let n ← fldN j "n"
+  let pts ← getMat (← fld j "pts")
+  let ts ← getL getMat (← fld j "tensors")
+  if pts.length ≠ ts.length then throw "pts/tensors differ in length"
+  let rows ← (pts.zip ts).mapM fun (p, t) => do
+    let a ← getAngles p
+    pure (tensorToCartesian cl n a t, tensorToCartesianOp cl n a t)
+  pure <| Json.mkObj [("code", Json.arr (rows.map (jMat ·.1)).toArray),
+    ("op", Json.arr (rows.map (jMat ·.2)).toArray)]
+
+/-- {"u":[[..]..],"v":[[..]..],"T":[[[..]]..],"S":[[[..]]..]} -> the five products per item -/
+def products (j : Json) : Except String Json := do
+  let us ← getMat (← fld j "u")
+  let vs ← getMat (← fld j "v")
+  let ts ← getL getMat (← fld j "T")
+  let ss ← getL getMat (← fld j "S")
+  if us.length ≠ vs.length ∨ us.length ≠ ts.length ∨ us.length ≠ ss.length then throw "lengths differ"
+  let items := (us.zip (vs.zip (ts.zip ss))).map fun (u, v, t, s) =>
+    Json.mkObj [("vv", jQ (dotVV u v)), ("vt", jQs (dotVT u t)), ("tv", jQs (dotTV t v)),
+      ("tt", jMat (dotTT t s)), ("outer", jMat (outerVV u v)), ("trace", jQ (trace t))]
+  pure (Json.arr items.toArray)
+
+/-- {"cls","n","comps":[..],"tensor":[[..]..]} -> `field[name]` for every axis name (null =
+IndexError) and `tensor[a, b]` for every pair of the component order -/
+def getitemH (j : Json) : Except String Json := do
+  let cl ← parseCls (← fldS j "cls")
+  let n ← fldN j "n"
+  let comps ← fldQs j "comps"
+  let t ← getMat (← fld j "tensor")
+  let jo : Option Rat → Json := fun o => match o with | none => Json.null | some q => jQ q
+  let ord := componentOrder cl n
+  pure <| Json.mkObj [
+    ("v", Json.mkObj (allAx.map fun a => (a.name, jo (getitem cl n a comps)))),
+    ("t", Json.arr (ord.flatMap fun a => ord.map fun b =>
+      Json.arr #[Json.str a.name, Json.str b.name, jo (getitem2 cl n a b t)]).toArray)]
+
+/-- {"cls","n","vals":[..]} -> components or "DimensionError" -/
+def fromexpr (j : Json) : Except String Json := do
+  let cl ← parseCls (← fldS j "cls")
+  let n ← fldN j "n"
+  let vals ← fldQs j "vals"
+  match fromExpressions cl n vals with
+  | some c => pure (jQs c)
+  | none => pure (Json.str "DimensionError")
+
+def fromexpr2 (j : Json) : Except String Json := do
+  let cl ← parseCls (← fldS j "cls")
+  let n ← fldN j "n"
+  let vals ← getMat (← fld j "vals")
+  match fromExpressions2 cl n vals with
+  | some c => pure (jMat c)
+  | none => pure (Json.str "DimensionError")
+
+/-- {"cls","r","z","pt":[cθ,sθ,cφ,sφ]} -> `pos_to_cart` -/
+def postocart (j : Json) : Except String Json := do
+  let cl ← parseCls (← fldS j "cls")
+  let r ← fldQ j "r"
+  let z ← fldQ j "z"
+  let a ← getAngles (← fldQs j "pt")
+  pure (jQs (posToCart cl r z a))
+
+def handlers : List (String × Handler) := [
+  ("c19.cs", cs), ("c19.order", order), ("c19.tocart", tocart), ("c19.tocart2", tocart2),
+  ("c19.products", products), ("c19.getitem", getitemH), ("c19.fromexpr", fromexpr),
+  ("c19.fromexpr2", fromexpr2), ("c19.postocart", postocart)]
 end PdeVerif.Drv.C19
